@@ -168,7 +168,9 @@ func (o *Obs) headBranch() (string, bool) {
 		return "", false
 	}
 	n := string(o.Head[len(p):])
-	if n == "" || strings.ContainsAny(n, "/\n") {
+	// a branch is a file directly inside refs/heads: any non-empty name without '/' (Goit accepts
+	// blanks, ": ", tabs and even line breaks in a name and reads such a HEAD back)
+	if n == "" || strings.Contains(n, "/") {
 		return "", false
 	}
 	return n, true
